@@ -87,20 +87,12 @@ type c12World struct {
 const c12Bound = 2 * time.Second
 
 func freeAddr(packet bool) (string, error) {
-	if packet {
-		c, err := net.ListenPacket("udp", "127.0.0.1:0")
-		if err != nil {
-			return "", err
-		}
-		defer c.Close()
-		return c.LocalAddr().String(), nil
-	}
-	l, err := net.Listen("tcp", "127.0.0.1:0")
+	// below the ephemeral range, so that no client socket of a concurrently running check can take it meanwhile
+	p, err := kit.FreePort()
 	if err != nil {
 		return "", err
 	}
-	defer l.Close()
-	return l.Addr().String(), nil
+	return fmt.Sprintf("127.0.0.1:%d", p), nil
 }
 
 func (w *c12World) startCall(h *c12Handle) *c12Call {
